@@ -7,7 +7,7 @@
  *           method path reqbody stream : hex ("-" = empty);  hdrs : name:value,... (hex) or "-"
  *           limit : hex size_t;  ending : e (EOF) | r (ECONNRESET) | s (stall, the request is then
  *           cancelled);  segs : decimal sizes a,b,c (0 = one EAGAIN; the unscripted rest arrives as
- *           one segment) or "-";  options: failat=K failfrom=K sockerr=N sendfail=K
+ *           one segment), "-" (one shot) or rK (every segment K bytes);  options: failat=K failfrom=K sockerr=N sendfail=K
  * result: req=<hex> ret=<ok|null> cbs=<n> [cb=null | cb=<status>/<hdrs>/<body>]* end=<done|cancelled|error|stuck>
  *           | allocs=<n> refused=<n> live=<n> exit=<ok|code N|sig N>
  *         body : null (NULL, len 0) | toobig (NULL, len (size_t)-1) | <hex> | L<len>C<crc32> (len > 1024)
@@ -295,7 +295,13 @@ run_case(char ** tok, int ntok)
 	wh.sendchunk = (size_t)strtoull(tok[5], NULL, 10);
 	limit = (size_t)strtoull(tok[6], NULL, 16);
 	wh.ending = tok[7][0];
-	wh.nsegs = parse_sizes(tok[8], &segs);
+	if (tok[8][0] == 'r') {
+		/* rK: every segment has K bytes */
+		wh.segrep = (size_t)strtoull(tok[8] + 1, NULL, 10);
+		wh.nsegs = 0;
+		segs = NULL;
+	} else
+		wh.nsegs = parse_sizes(tok[8], &segs);
 	wh.segs = segs;
 	wh.stream = unhex(tok[9], &wh.streamlen, 0);
 	for (k = 10; k < ntok; k++) {
